@@ -13,7 +13,7 @@ From Cntgs Require Import Base Layout Mem Vector Proxy Elem World Spec Rep ElemT
 Import ListNotations.
 Local Open Scope Z_scope.
 
-Theorem C12_element_from_reference_is_deep_copy : forall L, wf_plist L = true -> all_ctriv L = true ->
+Theorem C12_element_from_reference_is_deep_copy : forall L, wf_plist L = true -> (forall mv, all_ctriv mv L = true) ->
   forall mv ms a t fc sb aid junk nb,
   tuple_ok L fc 0 t -> elem_at L ms a t -> 0 <= a -> (SA L | a) ->
   let '(ms1, el, evs) := elem_from_ref mv L ms (ref_fl L t a) sb aid junk nb in
@@ -26,7 +26,7 @@ Print Assumptions C12_element_from_reference_is_deep_copy.
    value types: the target ends up holding exactly the source's tuple in a block of its
    own / in the block it took over; on the re-allocating path whatever the target held before
    (also nothing: a moved-from element) and whatever its size *)
-Theorem C12_element_copy_construction : forall L, wf_plist L = true -> all_ctriv L = true ->
+Theorem C12_element_copy_construction : forall L, wf_plist L = true -> (forall mv, all_ctriv mv L = true) ->
   forall src t fc aid junk nb, tuple_ok L fc 0 t -> elem_holds L src t ->
   let '(d, evs) := elem_copy L src aid junk nb in
   elem_holds L d t /\ e_bid d = Some nb /\ e_aid d = aid /\ e_units d = e_units src.
@@ -34,7 +34,7 @@ Proof. exact elem_copy_spec. Qed.
 Print Assumptions C12_element_copy_construction.
 
 Theorem C12_element_copy_assignment_reallocating : forall L, wf_plist L = true ->
-  all_ctriv L = true -> all_dtriv L = true ->
+  (forall mv, all_ctriv mv L = true) -> all_dtriv L = true ->
   forall pocca ae d src t fc junk nb, tuple_ok L fc 0 t -> elem_holds L src t ->
   (fixed_or_plain L && (negb pocca || ae) && match e_bid d with Some _ => true | None => false end) = false ->
   let '(d', evs, nb') := elem_copy_assign pocca ae L d src junk nb in
